@@ -28,6 +28,24 @@ THEOREMS = [
     "VK.applyTransfer_random_on",
     "VK.stvStep_random_on",
     "VK.C08_stv_representation_invariant_random",
+    "VK.electFromRanking_ren",
+    "VK.applyTransfer_ren",
+    "VK.stvStep_ren",
+    "VK.C08_stv_neutral",
+    "VK.C08_stv_neutral_states",
+    "VK.C08_irv_neutral",
+    "VK.C08_seqrcv_neutral",
+    "VK.C08_plurality_neutral",
+    "VK.C08_borda_neutral",
+    "VK.C08_scorerule_neutral",
+    "VK.C08_toptwo_neutral",
+    "VK.C08_alaska_neutral",
+    "VK.C08_tiers_neutral",
+    "VK.C08_condorcet_neutral",
+    "VK.C08_domsets_neutral",
+    "VK.C08_condoborda_neutral",
+    "VK.C08_random_dictator_neutral",
+    "VK.C08_boosted_neutral",
 ]
 RULE = ("cases = deterministic configuration of every ranking / scoring / pairwise rule (as in C10) on a random profile; "
         "five transformations of the input: rename the candidates by a random bijection into a second name pool (sort "
